@@ -266,8 +266,10 @@ func verifyPartChecksums(part part.Entity, calculated storage.ChecksumValues) er
 }
 
 func verifyObjectChecksums(object storage.Object, parts []part.Entity, partChecksums []storage.ChecksumValues) error {
-	// If single part, object checksums should match part checksums
-	if len(parts) == 1 {
+	// If single part, object checksums should match part checksums.
+	// A multipart or appended object that happens to have one part carries a multipart ETag ("...-1")
+	// and multipart checksums, so it is verified by the multipart rule below.
+	if len(parts) == 1 && !strings.Contains(object.ETag, "-") {
 		calculated := partChecksums[0]
 
 		if object.ETag != "" && calculated.ETag != nil {
